@@ -20,12 +20,14 @@ STATE_LABELINGS = {
     'mix': lambda i: [0, 'b', (1, 2), None, 'e', (3,), 2.5, frozenset({7})][i],    # not sortable
     'fd': (lambda i: frozendict({'x': i // 2, 'y': i % 2})) if frozendict else (lambda i: ('fd', i)),
     'strfwd': lambda i: 'state%d' % i,
+    'falsy': lambda i: [0, '', (), False, 0.5, 'x', 7, 8][i] if i < 3 else ('s', i),   # falsy state objects (False == 0 avoided)
 }
 ACTION_LABELINGS = {
     'ab': lambda a: a,
     'rev': lambda a: {'a': 'z', 'b': 'y', 'c': 'x'}[a],
     'mix': lambda a: {'a': 1, 'b': 'b', 'c': (0,)}[a],   # not sortable
     'fd': (lambda a: frozendict({'d': a})) if frozendict else (lambda a: ('fd', a)),
+    'falsy': lambda a: {'a': 0, 'b': '', 'c': ()}[a],    # falsy action objects (integer 0, empty string, empty tuple)
 }
 
 
